@@ -32,9 +32,21 @@ _i['FILEDESC'] = "".ljust(80)
 _i['HISTORY'] = ""
 
 
+def _varlist2keys(varliststr):
+    """
+    names in a VAR-LIST string: 16 character fields without a separator,
+    so a 16 character name touches the next one
+    """
+    if len(varliststr) % 16 == 0:
+        return [varliststr[i:i + 16].strip()
+                for i in range(0, len(varliststr), 16)]
+    else:
+        return varliststr.split()
+
+
 def ioapi_sort_meta(infile):
     mydimensions = infile.dimensions.copy()
-    outvars = getattr(infile, 'VAR-LIST', '').split()
+    outvars = _varlist2keys(getattr(infile, 'VAR-LIST', ''))
     allvars = outvars + \
         [k for k in list(infile.variables)
          if k not in outvars and k != 'TFLAG']
@@ -641,7 +653,7 @@ Varable failures: {var_failed}
 
     def _add2Varlist(self, varkeys):
         varliststr = getattr(self, 'VAR-LIST', '')
-        keys = [k for k in varliststr.split() if k in self.variables]
+        keys = [k for k in _varlist2keys(varliststr) if k in self.variables]
         newkeys = set(varkeys).difference(keys + ['ETFLAG', 'TFLAG'])
         for varkey in varkeys:
             if varkey in newkeys:
